@@ -188,6 +188,26 @@ macro_rules! variant_nest {
     };
 }
 variant_nest!(c02_q_variant_in_variant_depth, [0x18, 0x18, 0x18, 0x01, 0], 5);
+
+/// Two levels of one-element Variant arrays (0x98, length 1) around a Boolean, depth limit 1: must be rejected.
+#[cfg(kani)]
+#[kani::proof]
+#[kani::stub(::std::fmt::format, crate::stubs::fmt_format)]
+#[kani::stub(::std::string::String::from_utf8, crate::stubs::string_from_utf8)]
+#[kani::stub(::regex::Regex::new, crate::stubs::regex_new)]
+#[kani::unwind(6)]
+pub fn c02_q_variant_array_nesting_d1() {
+    let mut bytes: [u8; 12] = [0x98, 1, 0, 0, 0, 0x98, 1, 0, 0, 0, 0x01, 0];
+    bytes[11] = kani::any();
+    let mut s = SrcLong::new(bytes);
+    let r = Variant::decode(&mut s, &small_opts(1));
+    if let Ok(ref v) = r {
+        assert!(variant_nesting(v) <= 1, "Variant nested through arrays deeper than the configured decoding depth is rejected");
+    }
+    assert!(r.is_err(), "two levels of nesting exceed a depth limit of 1");
+    kani::cover!(true, "end reached");
+    core::mem::forget(r);
+}
 variant_nest!(c02_t_variant_array_nesting_depth, [0x98, 1, 0, 0, 0, 0x98, 1, 0, 0, 0, 0x98, 1, 0, 0, 0, 0x01, 0], 17);
 
 /// Variant scalars: mask byte concrete per instance, payload symbolic.
